@@ -413,7 +413,52 @@ func c14ScriptResult(script string, n int) string {
 		k, _ := strconv.Atoi(script[4:])
 		return failN(k)
 	}
+	if kind, at, ok := c14ErrScript(script); ok {
+		// err:<kind>@<k>: attempts before the k-th fail with the generic error, the k-th returns the error value <kind>, the
+		// subscriber is healthy afterwards
+		switch {
+		case n < at-1:
+			return "fail"
+		case n == at-1:
+			return "err:" + kind
+		}
+	}
 	return "ok"
+}
+
+// c14ErrKinds: the error VALUE a subscriber returns is a dimension of its behaviour.
+var c14ErrKinds = []string{"generic", "event-fatal", "wrapped-event-fatal", "canceled", "wrapped-canceled", "deadline", "wrapped-deadline",
+	"retry-unrecoverable", "text-context-canceled"}
+
+func c14ErrScript(script string) (kind string, at int, ok bool) {
+	if !strings.HasPrefix(script, "err:") {
+		return "", 0, false
+	}
+	i := strings.LastIndex(script, "@")
+	at, _ = strconv.Atoi(script[i+1:])
+	return script[4:i], at, true
+}
+
+func c14ErrValue(kind string) error {
+	switch kind {
+	case "event-fatal":
+		return EventFatal{errors.New("subscriber says: fatal")}
+	case "wrapped-event-fatal":
+		return fmt.Errorf("subscriber wraps: %w", EventFatal{errors.New("subscriber says: fatal")})
+	case "canceled":
+		return context.Canceled
+	case "wrapped-canceled":
+		return fmt.Errorf("subscriber: storage took too long: %w", context.Canceled)
+	case "deadline":
+		return context.DeadlineExceeded
+	case "wrapped-deadline":
+		return fmt.Errorf("subscriber: storage took too long: %w", context.DeadlineExceeded)
+	case "retry-unrecoverable":
+		return retry.Unrecoverable(errors.New("subscriber says: try again (wrapped in retry-go's unrecoverable marker)"))
+	case "text-context-canceled":
+		return errors.New("subscriber says: upstream answered: context canceled")
+	}
+	return errors.New("subscriber says: try again")
 }
 
 // ledger entries
@@ -543,8 +588,21 @@ func (rn *c14Run) receive(sp c14SubSpec, life int, kv *fault.KV, e Event) (bool,
 		rn.runaway = true
 		res = "ok" // stop a runaway loop; reported as budget violation
 	}
+	var errValue error
+	if strings.HasPrefix(res, "err:") {
+		errValue = c14ErrValue(res[4:])
+		// the ledger knows two kinds of failure: a FATAL report as the product defines it (its EventFatal type anywhere in
+		// the error chain) and everything else
+		res = "fail"
+		if errors.As(errValue, new(EventFatal)) {
+			res = "fatal"
+		}
+	}
 	rn.calls = append(rn.calls, c14Call{Sub: sp.name, TxName: name, Type: e.Type, Life: life, Result: res, StepsAt: kv.Steps(), Loop: loop})
 	rn.sim.receiverReturned()
+	if errValue != nil {
+		return false, errValue
+	}
 	switch res {
 	case "ok":
 		return true, nil
@@ -1338,7 +1396,7 @@ func TestVerifC14(t *testing.T) {
 	var runs, fired int64
 	sampled := 0
 	shard, nsh := r.Shard()
-	var skipped, seeded, errRuns int64
+	var skipped, seeded, errRuns, errValueRuns int64
 	// try runs one case; machinery trouble (a run that does not settle, a store that does not close, …) is retried on a
 	// fresh store and, if it persists, makes the case a skipped one: not exhaustive, never a failure of the check
 	try := func(sc c14Scenario, txs []Transaction, pays [][]byte, names map[hash.SHA256Hash]string) *c14Result {
@@ -1496,6 +1554,69 @@ func TestVerifC14(t *testing.T) {
 			}
 		}
 	}
+	// the error value returned by the subscriber: every kind at attempt 1, 2, 3, healthy afterwards, with every stop point
+	{
+		vi := 0
+		for _, pick := range []struct {
+			set, sub string
+			ops      []c14Op
+		}{{"product", "nats", []c14Op{{Kind: "pub", Ref: 0}}}, {"product", "private", []c14Op{{Kind: "priv", Ref: 0}}}, {"generic", "txs", []c14Op{{Kind: "pub", Ref: 0}}}} {
+			txs, pays, names := c14MakeTxs(pick.ops)
+			for _, kind := range c14ErrKinds {
+				for at := 1; at <= 3; at++ {
+					vi++
+					if !r.Mine(vi) || r.Expired() {
+						continue
+					}
+					sc := c14Scenario{Ops: pick.ops, Set: pick.set, Faulty: pick.sub, Script: "err:" + kind + "@" + strconv.Itoa(at), Drain: "each", Order: "asc"}
+					dry := try(sc, txs, pays, names)
+					if dry == nil {
+						continue
+					}
+					runs++
+					errValueRuns++
+					r.Eval(sc.key())
+					r.Outcome("subscriber-error-value")
+					c14Report(r, sc, dry)
+					labels := c14Labels(dry)
+					nCalls := 0
+					for _, c := range dry.Calls {
+						if c.Life == 0 {
+							nCalls++
+						}
+					}
+					for k := 1; k <= len(labels)+nCalls; k++ {
+						sck := sc
+						if k <= len(labels) {
+							sck.StopAt = k
+						} else {
+							sck.StopCall = k - len(labels)
+						}
+						var res *c14Result
+						for attempt := 0; attempt < 3 && res == nil; attempt++ {
+							x := try(sck, txs, pays, names)
+							if x == nil {
+								break
+							}
+							if x.Stopped && c14SamePrefix(c14Labels(x), labels) {
+								res = x
+							}
+						}
+						if res == nil {
+							r.NotExhaustive("some subscriber-error cases were not reproducible (skipped)")
+							skipped++
+							continue
+						}
+						runs++
+						errValueRuns++
+						r.Eval(sck.key() + "|" + strconv.Itoa(k))
+						r.Outcome(c14StopClass(res, sck))
+						c14Report(r, sck, res)
+					}
+				}
+			}
+		}
+	}
 	// storage errors in the delivery bookkeeping, one per run: every read of a job shelf and every step of every job-shelf
 	// transaction (write-back of the retry count, completion delete), in the first delivery and in retry attempts
 	{
@@ -1578,6 +1699,7 @@ func TestVerifC14(t *testing.T) {
 	r.AddExtra("cases_skipped", skipped)
 	r.AddExtra("restarts_from_seeded_jobs", seeded)
 	r.AddExtra("storage_error_runs", errRuns)
+	r.AddExtra("subscriber_error_value_runs", errValueRuns)
 	if os.Getenv("C14_TIMING") != "" {
 		fmt.Println("TIMING open0, life0, close0, open1, run1, close1:", c14T[:6])
 	}
@@ -1658,6 +1780,15 @@ func c14Report(r *ev.Run, sc c14Scenario, res *c14Result) {
 			sig = "C14|" + f.clause + "|" + f.sub + "|" + script + "|" + c14StopClass(res, sc)
 			if c14HasSame(sc.Ops) {
 				sig += "|equal-payload-bytes"
+			}
+			if kind, at, ok := c14ErrScript(sc.Script); ok && f.sub == sc.Faulty {
+				// the error value is the class; a routine that ends with budget left, no completion and no fatal report is what the
+				// statement forbids, whichever lifetime it is seen in
+				clause := f.clause
+				if clause == "stuck-in-process" {
+					clause = "retries-stopped-with-budget-left"
+				}
+				sig = "C14|subscriber-error:" + kind + "|" + clause + "|attempt-" + strconv.Itoa(at) + "|" + c14StopClass(res, sc)
 			}
 			if sc.ErrAt > 0 {
 				// one storage error (deviation bound 1): the class of the failing step replaces subscriber and stop class
